@@ -192,3 +192,32 @@ func GrammarWKT(s *vs.Stream, depth int) string {
 	}
 	return head + gParen(s, 4, func() string { return GrammarWKT(s, depth-1) })
 }
+
+// GrammarFeature draws a GeoJSON Feature document whose members are
+// independently well- or ill-formed (several faults can coincide: a decoder
+// that reports "the first" one must not let map iteration order decide which).
+func GrammarFeature(s *vs.Stream) string {
+	typ := []string{`"Feature"`, `"Feature"`, `"Feature"`, `"feature"`, `"FeatureCollection"`, `7`, `null`}[s.Intn(7, "gf/type")]
+	var g string
+	switch s.Intn(6, "gf/geom") {
+	case 0:
+		g = "null"
+	case 1:
+		g = `{"type":"Nope","coordinates":[1,2]}`
+	case 2:
+		g = `5`
+	default:
+		g = GrammarGeoJSON(s, 1)
+	}
+	props := []string{`{}`, `null`, `{"a":1,"b":{"c":[1,2]}}`, `3`, `"x"`, `[]`}[s.Intn(6, "gf/props")]
+	id := []string{``, `,"id":1`, `,"id":"a"`, `,"id":{}`, `,"id":null`}[s.Intn(5, "gf/id")]
+	extra := []string{``, `,"bbox":[0,0,1,1]`, `,"foo":{"bar":1}`, `,"type2":1,"zz":[1]`}[s.Intn(4, "gf/extra")]
+	parts := []string{`"type":` + typ, `"geometry":` + g, `"properties":` + props}
+	// member order is drawn too; a member may be missing
+	if s.Intn(8, "gf/drop") == 7 {
+		parts = parts[:2]
+	}
+	k := s.Intn(len(parts), "gf/rot")
+	parts = append(parts[k:], parts[:k]...)
+	return "{" + strings.Join(parts, ",") + id + extra + "}"
+}
